@@ -51,3 +51,15 @@ Definition wiring (g h pk_s pk_r : Z) (S : Z * Z) (A S' : list (Z * Z)) : list Z
   let st := @gen_enc_trans_proof_info ZrF ZrG g h pk_s pk_r S A S' in
   ([dl_public (et_dlog st); dl_coeff (et_dlog st); ed_public (et_elg st); ed_c0 (et_elg st); ed_c1 (et_elg st)],
    map com_eq_fields (et_e1 st), map com_eq_fields (et_e2 st)).
+
+(** ** the bytes hashed for the sigma proof's challenge (the FIRST challenge of a transfer): transcript
+    initialisation of [make_transfer_data] / [make_sec_to_pub_transfer_data] (legacy [RandomOracle] domain,
+    "ctx", "receiver_pk", "sender_pk" / "pk", each appended as a whole [Serial] value), EncTrans [public],
+    then the commit message under "point".  Group elements are tokens (pseudo-byte 2^260 + token) and the
+    serialised global context is the single marker 2^259; the check expands both to the real bytes and
+    compares sha3-256 with the challenge of the real proof. *)
+Definition GC_MARK : N := (2 ^ 259)%N.
+Definition frame_tokens (sec2pub : bool) (g h pk_s pk_r : Z) (S : Z * Z) (A S' : list (Z * Z))
+    (cm : Z * Z * list (Z * Z) * list (Z * Z)) : bytes :=
+  let ctx := if sec2pub then sec_to_pub_ctx ZrCodec g [GC_MARK] pk_s else transfer_ctx ZrCodec g [GC_MARK] pk_r pk_s in
+  frame (enc_trans_proto ZrCodec) Legacy ctx (@gen_enc_trans_proof_info ZrF ZrG g h pk_s pk_r S A S') cm.
